@@ -845,7 +845,11 @@ func (g *Gen) VLen(klen int) int {
 
 func (g *Gen) Put() Op {
 	k := g.Key()
-	return Op{Kind: "put", Key: k, VLen: g.VLen(len(k)), VSeed: g.R.U64()}
+	op := Op{Kind: "put", Key: k, VLen: g.VLen(len(k)), VSeed: g.R.U64() | 1}
+	if g.R.Chance(1, 25) {
+		op.VSeed = 0 // all-zero value
+	}
+	return op
 }
 
 func (g *Gen) Batch() Op {
